@@ -353,6 +353,31 @@ def rule_r3(prog, res) -> None:
             a_, b_ = (item_part(key, 0) if key is not None else None), (item_part(arg, 1) if arg is not None else None)
             good = a_ is not None and a_ == b_
             if not good:
+                # the same pairing spelled with two parallel views of the dictionary: zip(<writers of d.keys()>, d.values())
+                def zip_part(e):
+                    """e == ELEM(zip(A, B, …))[i]  ->  (text of the zip, A_i)"""
+                    if isinstance(e, ast.Subscript) and isinstance(e.slice, ast.Constant) and isinstance(e.slice.value, int):
+                        el = e.value
+                        if isinstance(el, ast.Call) and isinstance(el.func, ast.Name) and el.func.id == symx.ELEM and el.args:
+                            z = symx.strip_wrappers(el.args[0])
+                            if isinstance(z, ast.Call) and (dotted(z.func) or "") == "zip" and 0 <= e.slice.value < len(z.args):
+                                return unparse(z), z.args[e.slice.value]
+                    return None, None
+
+                def view_of(e, kind):
+                    return isinstance(e, ast.Call) and isinstance(e.func, ast.Attribute) and e.func.attr == kind and isinstance(e.func.value, ast.Name) and e.func.value.id == pparam and not e.args
+
+                zr, recv_src = zip_part(recv)
+                za, arg_src = zip_part(arg) if arg is not None else (None, None)
+                if zr is not None and zr == za and view_of(arg_src, "values"):
+                    g = symx.strip_wrappers(recv_src)
+                    # the writers: (self.get_writer(k) for k in d.keys()) — also what map(self.get_writer, d.keys()) reads as
+                    if isinstance(g, (ast.GeneratorExp, ast.ListComp)) and len(g.generators) == 1 and not g.generators[0].ifs and isinstance(g.generators[0].target, ast.Name):
+                        it = g.generators[0].iter
+                        el = g.elt
+                        if (view_of(it, "keys") or (isinstance(it, ast.Name) and it.id == pparam)) and isinstance(el, ast.Call) and (dotted(el.func) or "").split(".")[-1] == "get_writer" and len(el.args) == 1 and isinstance(el.args[0], ast.Name) and el.args[0].id == g.generators[0].target.id:
+                            good = True
+            if not good:
                 break
     if seen_pc == 0:
         raise AnalysisError("C02.R3: CatalogWriter.process_patches no longer hands chunks to PatchWriter.process_chunk")
